@@ -3,4 +3,4 @@
 From Coq Require Import Extraction ExtrOcamlBasic NArith List.
 From RsddV Require Import Model.SddVtree Model.SddOps.
 Extraction Language OCaml.
-Extraction "../ocaml/C04/model.ml" run_prog sdd_eqb vheight.
+Extraction "../ocaml/C04/model.ml" run_prog sdd_eqb vheight sden.
